@@ -38,15 +38,32 @@ PROPS = {
                 "projection {res, ctr, next, uid, prod}; a case is distinct by the hash of its op sequence, non-trivial with >= 2 ops",
     },
     "C10": {
-        "module": "HqModel.Props.C10",
+        "module": "HqModel.Props.C10Emit",
         "theorems": [
             "HqModel.C10.c10_restore_refines", "HqModel.C10.c10_prefix", "HqModel.C10.c10_every_crash_point",
             "HqModel.C10.c10_torn_tail", "HqModel.C10.c10_torn_tail_load", "HqModel.C10.c10_truncate_append",
             "HqModel.C10.c10_f9_regression", "HqModel.C10.c10_f10_regression", "HqModel.C10.c10_f11_f17_regression",
+            "HqModel.C10.c10_emitted_producible", "HqModel.C10.c10_emitted_dep_closed", "HqModel.C10.c10_emitted_producible_prefix",
+            "HqModel.C10.c10_emitted_restore", "HqModel.C10.c10_emitted_state_agrees", "HqModel.C10.c10_emitted_step",
+            "HqModel.C10.c10_emitted_interleaved",
+            "HqModel.C10.c10_emitted_late_start_witness", "HqModel.C10.c10_emitted_consumers_witness",
+            "HqModel.C10.c10_emitted_instance_witness", "HqModel.C10.c10_emitted_lost_twice_witness",
+            "HqModel.C10.c10_emitted_entries_witness", "HqModel.C10.c10_emitted_poison_submit_witness",
         ],
         "parts": [dict(_PART, tags=["res", "trunc", "job", "cnt", "task", "sub", "adj", "core", "queue", "prod"],
-                       clauses=["c10.", "gen.", "c03.restart", "c06.restart", "c07.restart"])],
+                       clauses=["c10.", "gen.", "c03.restart", "c06.restart", "c07.restart"]),
+                  # the writer side: the job-layer model M4 on simulated cluster runs; the compiled model evaluates the side
+                  # condition Emit.EmitOk of the c10_emitted_* theorems on the pre-state of every real operation
+                  {"component": "job", "driver": "hqm-job", "name": "job_emit",
+                   "tags": ["ev", "ret", "core", "job", "tasks", "!panic"], "clauses": ["c10.emit"],
+                   "quick": {"cases": 20, "shards": 12, "extra": []}, "thorough": {"cases": 200, "shards": 16, "extra": []}}],
         "assumptions": [
+            "`Producible` / `DepClosed` of emitted journals are THEOREMS over the job-layer model M4 (c10_emitted_producible, "
+            "c10_emitted_dep_closed, c10_emitted_restore: every prefix of the journal M4 writes, also when other emitters' records are "
+            "interleaved) under the decidable side condition Emit.EmitOk (late start, instance ids increasing, consumer closure of a "
+            "failure, worker ids, array shape); hqm-job evaluates it on the pre-state of every real operation (mon FAIL c10.emit <sig>); "
+            "each conjunct is shown necessary by a decide-witness; one server life from the empty state (a restart re-enters through "
+            "c10_emitted_step once Emit.Inv is shown for the restored state: not done)",
             "c10_restore_refines is full strength for the code after the fixes 08d60f1 (F9), 05de231 (F10), 360a725 (F11), "
             "40220c7 (F17); it includes the restart clauses of C03 (remaining deps), C06 (next instance id) and C07 (crash "
             "counter) as `handle_new_tasks` applies the adjust map",
